@@ -22,6 +22,7 @@ Upd(st, n, s) == Good([st EXCEPT ![n] = s])
 
 BStep(st, e, t) ==
     IF e.e = "noise" THEN Good(st)
+    ELSE IF e.e = "noise_raise" THEN Bad(st, "a frame of unrelated bus traffic raised into the receive path")
     ELSE LET n == e.node
              s == st[n]
              od == t.od
